@@ -1,6 +1,7 @@
 import CstModel.Driver.GreenArea
 import CstModel.Model.Query
 import CstModel.Model.Fmt
+import CstModel.Model.Util
 namespace Cst.Drv
 
 def RState.idOf (rs : RState) (t : Nat) (p : Path) : RState × Nat :=
@@ -36,6 +37,29 @@ def putTree (rs : RState) (t : Nat) (r : Red) : RState :=
   match rs.trees[t]? with
   | some (_, slot) => { rs with trees := rs.trees.set! t (r, slot) }
   | none => rs
+
+/-- `taoiter`: drive the result of `token_at_offset` as the iterator it is -/
+def taoIterGo (rs : RState) (t : Nat) (r : Red) : Util.TAO Path → List String → List String → RState × List String
+  | _, [], acc => (rs, acc.reverse)
+  | it, op :: ops, acc =>
+    let elem (rs : RState) (o : Option Path) : RState × String :=
+      match o with
+      | some p => let (rs1, a) := showEl rs t r p; (rs1, a)
+      | none => (rs, "none")
+    if op == "next" then
+      let (o, it') := it.next
+      let (rs1, a) := elem rs o
+      taoIterGo rs1 t r it' ops (a :: acc)
+    else if op.startsWith "nth" then
+      let (o, it') := it.nth (op.drop 3).toNat!
+      let (rs1, a) := elem rs o
+      taoIterGo rs1 t r it' ops (a :: acc)
+    else if op == "len" then taoIterGo rs t r it ops (toString it.sizeHint.1 :: acc)
+    else if op == "last" then let (rs1, a) := elem rs it.last; (rs1, (a :: acc).reverse)
+    else if op == "count" then (rs, (toString it.count :: acc).reverse)
+    else if op == "left" then let (rs1, a) := elem rs it.leftBiased; (rs1, (a :: acc).reverse)
+    else if op == "right" then let (rs1, a) := elem rs it.rightBiased; (rs1, (a :: acc).reverse)
+    else (rs, ("bad-op" :: acc).reverse)
 
 def ansOpt (rs : RState) (t : Nat) (res : Option Path × Red) : RState × String :=
   let rs1 := putTree rs t res.2
@@ -219,6 +243,23 @@ def redStep (s : DState) : List String → Option (DState × String)
         let (rs1, a) := showEl rs t r' x
         let (rs2, b) := showEl rs1 t r' y
         some ({ s with red := rs2 }, s!"between {a} {b}")
+    | _, _ => some (s, "bad-op")
+  | "taoiter" :: eref :: off :: ops =>
+    match elemOf s eref, off.toNat? with
+    | some (t, r, _, p), some off =>
+      if Red.isToken r p then some (s, "n/a") else
+      let (res, r') := r.tokenAtOffset p off
+      let rs := putTree s.red t r'
+      let it : Option (Util.TAO Path) := match res with
+        | .none => some .none
+        | .single x => some (.single x)
+        | .between x y => some (.between x y)
+        | .panic => none
+      match it with
+      | none => some ({ s with red := rs }, "panic")
+      | some it =>
+        let (rs1, ss) := taoIterGo rs t r' it ops []
+        some ({ s with red := rs1 }, " | ".intercalate ss)
     | _, _ => some (s, "bad-op")
   | ["cover", eref, a, b] =>
     match elemOf s eref, a.toNat?, b.toNat? with
